@@ -88,6 +88,7 @@ class P(b1.Plugin):
         td.mode = mode
         draw_ord_fields(rng, td, mode)
         noise = [t for t in ("Debug", "Hash") if rng.random() < 0.35]
+        td.type_spelling = True
         gen.finalize_attrs(rng, td, noise)
         return td
 
